@@ -2,7 +2,7 @@
    [streams rd Inv D]: one-step characterisation; [complete_run] lifts it to every schedule of caller
    buffer sizes (zero-length reads included) and, through [src_streams], to every plan of short reads
    of the underlying source. *)
-From ZipV Require Import Base.Bytes Base.Outcome Model.Readers Proofs.StreamProofs.
+From ZipV Require Import Base.Bytes Base.Outcome Model.Readers Proofs.StreamProofs Proofs.AesProofs.
 Open Scope N_scope.
 
 (* the source delivers its data whatever the plan of short reads (no failing read in the plan) *)
@@ -25,6 +25,12 @@ Theorem C09_crc : forall (crc : bytes -> N) (I : Type) (ird : reader I) Inv Di,
   streams ird Inv Di -> streams (crc_read crc ird) (fun s => Inv (k_inner s)) (crc_den crc Di).
 Proof. exact crc_streams. Qed.
 Print Assumptions C09_crc.
+
+Theorem C09_aes : forall blk mac (I : Type) (ird : reader I) Inv Di,
+  streams ird Inv Di -> always_good Inv Di ->
+  streams (aes_read blk mac ird) (aes_inv' Inv) (aes_den blk mac Di).
+Proof. exact (@aes_streams). Qed.
+Print Assumptions C09_aes.
 
 (* every schedule: a completed run returned exactly the denoted bytes, and end of file is sticky *)
 Theorem C09_complete_run : forall (S : Type) (rd : reader S) Inv D, streams rd Inv D ->
